@@ -250,12 +250,14 @@ fn wild_style(pathlen_hint: f32) -> BoxedStrategy<StyleSpec> {
             let sum: f32 = dash.iter().sum();
             let all_nonneg = dash.iter().all(|d| *d >= 0.0);
             if all_nonneg && sum > 0.0 && sum.is_finite() {
-                let period = if dash.len() % 2 == 1 { 2.0 * sum } else { sum };
-                let per_dash = period / dash.len() as f32;
+                let per_dash = sum / dash.len() as f32;
                 // the statement allows up to 10^5 dashes; the generator stays below ~2000 per stroke because
                 // the cost of a dashed outline grows faster than linearly with the dash count (a 40 000-dash
                 // stroke takes about a minute and would be mistaken for a hang by the watchdog)
-                let min_ok = pathlen_hint / 2.0e3;
+                // (the hint ignores closing segments, hence the factor 2; wide strokes make every dash overlap
+                // hundreds of others on each scanline, so they get fewer dashes still)
+                let budget = if width > 8.0 { 300.0 } else { 1500.0 };
+                let min_ok = 2.0 * pathlen_hint / budget;
                 if per_dash < min_ok {
                     let k = min_ok / per_dash;
                     for d in dash.iter_mut() {
